@@ -38,11 +38,24 @@ FLOORS = {
 MM_PER_IN = 25.4
 
 
-def trace(rng_state, rng, kind, o, relative, sign, res, units, build):
-    """Trace one request on a fresh builder; returns (outcome, vertices, meta, session)."""
+def trace(rng_state, rng, kind, o, relative, sign, res, units, build, prelude=None, scale=1.0):
+    """Trace one request on a fresh builder; returns (outcome, vertices, meta, session).
+    prelude: seed of one to three other shapes traced first by the SAME builder (other kinds, sizes and
+    resolutions): what a tracer did before must not influence how it samples the request under test."""
+    import random
     rng.setstate(rng_state)
     s = Session(dp=9)
     g = s.g
+    if prelude is not None:
+        pr = random.Random(prelude)
+        g.set_axis(x=o[0], y=o[1], z=o[2])
+        for _ in range(pr.randint(1, 3)):
+            sc = scale * pr.choice([0.3, 1.0, 3.0])
+            g.set_resolution(sc / pr.choice([5, 20, 60]))
+            here = tuple(0.0 if v is None else v for v in g.position)
+            nm, a, k, _m = gen.shape_request(pr, here, False, scale=sc,
+                                             kinds=["spiral", "spline", "helix", "arc", "circle", "polyline"])
+            s.call(nm, *a, **k)
     if units == "in":
         # resolution given in mm, rescaled by the unit switch itself
         g.set_resolution(res * MM_PER_IN)
@@ -117,12 +130,15 @@ def run_case(ctx, col, case):
         if R is not None and R < 5 * res:
             res = R / 5
         ratio = L / res
-    req = {"shape": kind, "start": o, "relative": relative, "direction": sign, "units": units,
+    prelude = rng.randrange(1 << 30) if rng.random() < 0.4 else None
+    if prelude is not None:
+        col.count("requests_after_other_shapes_on_the_same_builder")
+    req = {"shape": kind, "start": o, "relative": relative, "direction": sign, "units": units, "prelude_seed": prelude,
            "resolution": res, "length": L, "radius": R, "scale": scale}
     try:
         with ctx.watchdog(ctx.params.get("case_timeout", 120)):
-            out1 = trace(state, rng, kind, o, relative, sign, res, units, build)
-            out2 = trace(state, rng, kind, o, relative, sign, res / 2, units, build)
+            out1 = trace(state, rng, kind, o, relative, sign, res, units, build, prelude, scale)
+            out2 = trace(state, rng, kind, o, relative, sign, res / 2, units, build, prelude, scale)
     except CaseTimeout:
         col.inconclusive_case(f"case {case}: watchdog {req}")
         return
